@@ -155,7 +155,16 @@ static void runSession(const Session& S, vh::Rng* rng, const std::vector<Op>* op
                     case 4: op.report = S.hasFinal ? std::max(lo, fin) + dt : Inf; break;   // beyond the final time / infinity
                     default: op.report = lo + dt;
                 }
-                switch (rng->below(10)) {
+                int schedCase = rng->below(10);
+                if (tAdv > tNow && rng->below(4) == 0) {
+                    // the state handed out is an interpolated one: schedule a time BEHIND the advanced state (the asserts allow it)
+                    op.sched = tNow + (tAdv - tNow) * rng->unit();
+                    if (rng->below(3) != 0) op.report = tNow + (op.sched - tNow) * (rng->coin() ? 1.0 : rng->unit());  // as TimeStepper::stepTo(t): report <= sched
+                    else op.report = tAdv + dt;                                                                      // direct API: report beyond the advanced time
+                    schedCase = -1;
+                }
+                switch (schedCase) {
+                    case -1: break;
                     case 0: op.sched = loS; break;                       // scheduled right at the advanced time
                     case 1: op.sched = std::max(loS, op.report); break;  // coincident with the report time
                     case 2: op.sched = S.hasFinal ? std::max(loS, fin) : loS + dt; break;   // coincident with final
@@ -167,6 +176,7 @@ static void runSession(const Session& S, vh::Rng* rng, const std::vector<Op>* op
                     op.report = lo + dt;
                 if (isCPodes && !std::isfinite(op.report)) op.report = lo + dt;   // CPODES needs a finite tout
                 op.viaStepBy = rng->below(8) == 0 && std::isfinite(op.report) && std::isfinite(op.sched);
+                if (schedCase == -1) op.viaStepBy = false;
                 if (op.viaStepBy) {   // stepBy(interval, limit) == stepTo(t+interval, t+limit): log what stepBy will compute
                     op.iv = op.report - tNow; op.lim = op.sched - tNow;
                     const double r2 = tNow + op.iv, s2 = tNow + op.lim;
@@ -256,16 +266,23 @@ static void runSession(const Session& S, vh::Rng* rng, const std::vector<Op>* op
     }
     const std::string nm = INTEG_NAMES[S.integ];
     // predicate keys: <family>.stepTo.<inputclass>.<pred>; the two CPodes variants share CPodesIntegratorRep::stepTo
-    const std::string fam = isCPodes ? "CPodes" : directed ? "AbstractIntegratorRep" : nm;
     // history class (CPodes only): a scheduled event exactly at the final time whose handler changed the state
     bool schedAtFinalReinit = false;
     for (size_t i = 0; i + 1 < log.size(); ++i)
         if (isCPodes && S.hasFinal && log[i].op.kind == 's' && !log[i].exc && log[i].status == Integrator::ReachedScheduledEvent
             && log[i].time == fin && log[i + 1].op.kind == 'r' && log[i + 1].op.lowered) schedAtFinalReinit = true;
-    const std::string cls = (S.hasFinal && S.fin == S.t0) ? "finalAtStart" : S.allowInterp == 0 ? "noInterp"
-                            : S.retEvery ? "retEvery" : schedAtFinalReinit ? "schedAtFinalReinit" : "plain";
+    // history class: a scheduled time behind the advanced state together with a report time beyond it (direct API use that
+    // violates the extra legality condition of the model, see `legalReq`)
+    bool schedBehind = false;
+    for (auto& c : log) if (c.op.kind == 's' && c.op.sched < c.tAdvBefore && c.op.report > c.op.sched) schedBehind = true;
+    for (auto& c : log) if (c.op.kind == 's' && c.op.sched < c.tAdvBefore && c.op.report <= c.op.sched) vh::D(nm + ".path.sched_behind_advanced_benign");
+    const std::string cls = (S.hasFinal && S.fin == S.t0) ? "finalAtStart" : (schedBehind && !isCPodes) ? "schedBehindAdvanced"
+                            : S.allowInterp == 0 ? "noInterp"
+                            : S.retEvery ? "retEvery" : schedAtFinalReinit ? "schedAtFinalReinit"
+                            : schedBehind ? "schedBehindAdvanced" : "plain";
+    const std::string fam = isCPodes ? "CPodes" : (directed || schedBehind) ? "AbstractIntegratorRep" : nm;
     const std::string kp = fam + ".stepTo." + ((directed && !isCPodes) ? "directed" : cls) + ".";
-    double worstPending = 0, worstMono = 0, worstAdv = 0, worstExact = 0, worstWin = 0, worstEos = 0, worstRefuse = 0, worstRepWin = 0;
+    double worstPending = 0, worstMono = 0, worstAdv = 0, worstExact = 0, worstWin = 0, worstEos = 0, worstRefuse = 0, worstRepWin = 0, worstLaterRepWin = 0;
     int nEos = 0; bool eosSeen = false;
     double prevTime = S.t0;
     if (isCPodes) vh::O("cp").i((long long)log.size()).emit();
@@ -297,7 +314,10 @@ static void runSession(const Session& S, vh::Rng* rng, const std::vector<Op>* op
         const double pend = std::min(c.op.report, std::min(c.op.sched, fin));
         worstPending = std::max(worstPending, c.time - pend);
         worstMono = std::max(worstMono, prevTime - c.time);
-        worstAdv = std::max(worstAdv, c.tAdv - std::min(c.op.sched, fin));
+        // the advanced state must not MOVE past the scheduled / final time (it may already be beyond a scheduled time the caller
+        // placed behind it)
+        if (c.tAdv != c.tAdvBefore) worstAdv = std::max(worstAdv, c.tAdv - std::min(c.op.sched, fin));
+        else worstAdv = std::max(worstAdv, c.tAdv - fin);
         worstAdv = std::max(worstAdv, c.time - c.tAdv);
         if (c.status == Integrator::ReachedReportTime) worstExact = std::max(worstExact, std::fabs(c.time - std::min(c.op.report, fin)));
         if (c.status == Integrator::ReachedScheduledEvent) worstExact = std::max(worstExact, std::fabs(c.time - c.op.sched));
@@ -309,7 +329,7 @@ static void runSession(const Session& S, vh::Rng* rng, const std::vector<Op>* op
         if (c.hasWindow) {
             if ((c.wLow < c.op.sched && c.op.sched < c.wHigh) || (c.wLow < fin && fin < c.wHigh)) worstWin = 1;
             if (!(c.wLow < c.wHigh) || c.time != c.wLow || c.tAdv != c.wHigh) worstWin = std::max(worstWin, 2.0);
-            if (c.wLow < c.op.report && c.op.report < c.wHigh) worstRepWin = 1;
+            if (c.wLow < c.op.report && c.op.report < c.wHigh) { if (c.nSteps >= 1) worstRepWin = 1; else worstLaterRepWin = 1; }
         }
         prevTime = c.time;
     }
@@ -321,7 +341,12 @@ static void runSession(const Session& S, vh::Rng* rng, const std::vector<Op>* op
     vh::P("eos_once_at_final", kp + "eos", worstEos, 0);
     vh::P("refused_after_eos", kp + "refused", worstRefuse, 0);
     vh::P("no_sched_or_final_inside_event_window", kp + "window", worstWin, 0);
-    vh::P("no_report_inside_event_window", kp + "report_in_window", worstRepWin, 0);
+    if (directed && !isCPodes) vh::P("no_report_inside_event_window", kp + "report_in_window", std::max(worstRepWin, worstLaterRepWin), 0);
+    else {
+        vh::P("no_report_inside_event_window", kp + "report_in_window", worstRepWin, 0);    // report time of the call that took the step (proved)
+        if (worstLaterRepWin > 0)                                                             // a later call's report time: the known finding
+            vh::P("no_report_inside_event_window", std::string(isCPodes ? "CPodes" : "AbstractIntegratorRep") + ".stepTo.directed.report_in_window", worstLaterRepWin, 0);
+    }
 }
 
 static Session randomSession(vh::Rng& r, int integ) {
